@@ -427,7 +427,7 @@ def make_jobs(ctx):
         combos.append((ir, orr, rng.choice([1, 2, 3, 4, 4, 5, 6, 7]), rng.below(2)))
     for (ir, orr, rec, simd) in combos:
         c0 = P.mkcfg(float(ir), float(orr), rec & ~0x30, rng.choice([0, 0, 0, 2, 8]), simd)
-        a = rng.choice([10, 40, 49, 5, 33, 12.5, 45, 1])
+        a = rng.choice([10, 40, 49, 5, 33, 12.5, 45, 1, 49.5, 49.9])      # (non-integer settings next to linear: 50.5 / 50.1 are not 50)
         phases = [50, 0, 100, 25, 75, a, 100 - a]
         if rec & 0x30:
             phases = [50, 25, 75]        # the recipe's own intermediate-phase bit is exercised in the plan sweep; here explicit values
@@ -450,7 +450,7 @@ def make_jobs(ctx):
     for e in sel[: (80 if ctx.quick else 600)]:
         c0 = dict(e["members"][0])
         c0["recipe"] = int(c0["recipe"]) & ~0x30
-        a = rng.choice([10, 30, 40, 20])
+        a = rng.choice([10, 30, 40, 20, 49.5])
         up = float(c0["orr"]) / float(c0["ir"])
         jobs.append({"cfg": c0, "phases": [50, 25, 75, a, 100 - a] if rng.chance(.5) else [50, 0, 100, a, 100 - a], "tones": [0.47],
                      "proto_cap": (4 if up > 20 else 24) if ctx.quick else (40 if up > 20 else 200)})
